@@ -363,11 +363,18 @@ def run_fuzz(pid, tier, seed):
             log = open(os.path.join(work, 'log%d' % i), 'wb')
             procs.append((subprocess.Popen(cmd, cwd=VERIF, stdout=subprocess.DEVNULL, stderr=log), log))
         units = 0
+        # one wall-clock budget for all fuzz processes together: libFuzzer's own -timeout cannot interrupt a C call that does
+        # not return (a backtracking regex), so a process that is still running at the deadline is killed and the campaign
+        # is recorded as unfinished (inconclusive, never a violation - the Hypothesis campaign owns hang detection)
+        deadline = time.time() + float(os.environ.get('VERIF_FUZZ_CAP', 180 if tier == 'quick' else 2400))
+        info['killed_at_deadline'] = 0
         for i, (p, log) in enumerate(procs):
             try:
-                p.wait(timeout=3600)
+                p.wait(timeout=max(1.0, deadline - time.time()))
             except subprocess.TimeoutExpired:
                 p.kill()
+                p.wait()
+                info['killed_at_deadline'] += 1
             log.close()
             with open(os.path.join(work, 'log%d' % i), 'rb') as f:
                 err = f.read()[-4000:].decode('utf-8', 'replace')
@@ -598,7 +605,9 @@ def run_check(pid, tier, seed):
 
     # 4b. coverage-guided sub-tier (atheris): the property's own check runs inside the fuzz target
     fuzz_info = None
-    if getattr(prop, 'fuzz', False) and not os.environ.get('VERIF_NO_FUZZ'):
+    if getattr(prop, 'fuzz', False) and not os.environ.get('VERIF_NO_FUZZ') \
+            and not any(v[0].startswith('does-not-terminate') for v in violations):
+        # (a non-terminating input found by the campaign would only hang the fuzz processes as well)
         fuzz_info = run_fuzz(pid, tier, seed)
         for r in fuzz_info.pop('failures'):
             k = match_known(known, r['signature'])
